@@ -150,7 +150,7 @@ func (h *SparseFileHandle) Close() error {
 
 type sparseIndexChunk struct {
 	IndexChunk
-	once sync.Once
+	mu sync.Mutex // held while the chunk is being loaded
 }
 
 // Loader for sparse files
@@ -230,37 +230,42 @@ func (l *sparseFileLoader) loadRange(start, length int64) error {
 }
 
 func (l *sparseFileLoader) loadChunk(i int) error {
-	var loadErr error
-	l.chunks[i].once.Do(func() {
-		c, err := l.s.GetChunk(l.chunks[i].ID)
-		if err != nil {
-			loadErr = err
-			return
-		}
-		b, err := c.Data()
-		if err != nil {
-			loadErr = err
-			return
-		}
+	// Only one goroutine loads a chunk at a time. A failed attempt leaves the
+	// chunk unloaded so that it's tried again, and reported again, next time.
+	l.chunks[i].mu.Lock()
+	defer l.chunks[i].mu.Unlock()
 
-		f, err := os.OpenFile(l.name, os.O_RDWR, 0666)
-		if err != nil {
-			loadErr = err
-			return
-		}
-		defer f.Close()
+	l.mu.RLock()
+	done := l.done.Get(i)
+	l.mu.RUnlock()
+	if done {
+		return nil
+	}
 
-		if _, err := f.WriteAt(b, int64(l.chunks[i].Start)); err != nil {
-			loadErr = err
-			return
-		}
+	c, err := l.s.GetChunk(l.chunks[i].ID)
+	if err != nil {
+		return err
+	}
+	b, err := c.Data()
+	if err != nil {
+		return err
+	}
 
-		verifYield("sparse.fetched")
-		l.mu.Lock()
-		l.done.Set(i, true)
-		l.mu.Unlock()
-	})
-	return loadErr
+	f, err := os.OpenFile(l.name, os.O_RDWR, 0666)
+	if err != nil {
+		return err
+	}
+	defer f.Close()
+
+	if _, err := f.WriteAt(b, int64(l.chunks[i].Start)); err != nil {
+		return err
+	}
+
+	verifYield("sparse.fetched")
+	l.mu.Lock()
+	l.done.Set(i, true)
+	l.mu.Unlock()
+	return nil
 }
 
 // writeState saves the current internal state about which chunks have
